@@ -82,6 +82,22 @@ def rich_doc(rng, variant: int, kind: str = "single", nfig: int = 2) -> dict:
            "footnote": {"text": [rng.choice(LATEX_TEXTS), "note"], "text_color": [[pals[2]]], "text_convert": [[conv]],
                         "as_table": kind != "figure"},
            "source": {"text": "Source: " + rng.choice(LATEX_TEXTS), "text_convert": [[conv]], "as_table": False}}
+    if kind in ("pageby", "subline"):
+        # long grouped tables on both threads: SAME column names and row count, different values
+        labels = (["Alpha-0", "Alpha-1", "Alpha-2"], ["Beta-0", "Beta-1", "Beta-2", "Beta-3"])[variant % 2]
+        nrows = 52
+        key = sorted(labels[i * len(labels) // nrows] for i in range(nrows))
+        cols = [["c0", "str", key], ["c1", "str", [rng.choice(LATEX_TEXTS + ["Drug A", "12.5"]) for _ in range(nrows)]],
+                ["c2", "str", [str((i * 7 + variant) % 23) for i in range(nrows)]]]
+        b = body(3)
+        b["page_by" if kind == "pageby" else "subline_by"] = ["c0"]
+        if kind == "pageby" and variant % 2:
+            b["new_page"] = True
+        rec["page"]["nrow"] = (14, 17)[variant % 2]
+        rec["dfs"], rec["bodies"] = [{"cols": cols}], [b]
+        rec["headers"] = [{"text": ["Group", "Term", "N"], "text_color": [[pals[0]]]}]
+        rec["kind"] = "single"
+        return rec
     if kind == "figure":
         # first image: a JPEG whose header announces a huge size (size-dependent code paths), then small PNGs
         files = [{"fmt": "jpeg", "w": 12000, "h": 9000, "seed": 100}] + \
@@ -107,7 +123,10 @@ def gen_docs(rng, n: int) -> list:
     copies), or independent seeded documents."""
     mode = rng.choice(["rich", "rich", "overlap", "overlap", "independent"])
     if mode == "rich":
-        kinds = [rng.choice(["single", "single", "multi", "figure"]) for _ in range(n)]
+        kinds = [rng.choice(["single", "single", "single", "multi", "multi", "figure", "figure", "pageby", "subline"])
+                 for _ in range(n)]
+        if rng.random() < 0.1:
+            kinds = [rng.choice(["pageby", "subline"])] * n  # grouping code on every thread
         v0 = rng.randrange(2)
         return [rich_doc(rng, v0 + i, kinds[i]) for i in range(n)], mode
     if mode == "overlap":
@@ -981,8 +1000,10 @@ def sweep_groups(root: int, n_groups: int) -> list:
                 sum(len(f["cols"][0][2]) for f in r["dfs"]) <= 13:
             grouped = r
             break
+    PA, PB = rich_doc(rng, 0, "pageby"), rich_doc(rng, 1, "pageby")
     groups = [("single-vs-single", SA, SB), ("multi-vs-figure", MA, FB), ("figure-overlap", FA, FB),
               ("equal-valued", SB, _json.loads(_json.dumps(SB))), ("single-vs-failing", SA, failing or SB),
+              ("pageby-vs-pageby", PA, PB),
               ("multi-vs-multi", MA, MB), ("grouped-vs-single", grouped or MB, SA),
               ("figure-vs-single", FA, SB)]
     return groups[:n_groups]
@@ -1078,11 +1099,11 @@ def sweep_jobs(root: int, groups: list, refcache: RefCache, specs: list, hot_inf
 # batch
 # --------------------------------------------------------------------------
 
-TIERS = {"quick": {"runs": 1000, "wall": 420.0, "groups": 5, "hot_cap": 600, "hot3_cap": 100,
+TIERS = {"quick": {"runs": 1000, "wall": 420.0, "groups": 6, "hot_cap": 600, "hot3_cap": 100,
                    "sweeps": [(0, "call", 32), (1, "call", 32), (2, "call", 8), (3, "call", 32), (4, "call", 32),
-                              (0, "line", 256)]},
-         "thorough": {"runs": 60000, "wall": 3000.0, "groups": 8, "hot_cap": 4000, "hot3_cap": 2500,
-                      "sweeps": [(i, "callret", 1) for i in range(8)] + [(i, "line", 4) for i in range(8)]}}
+                              (5, "call", 1024), (0, "line", 256)]},
+         "thorough": {"runs": 60000, "wall": 3000.0, "groups": 9, "hot_cap": 4000, "hot3_cap": 2500,
+                      "sweeps": [(i, "callret", 1) for i in range(9)] + [(i, "line", 4) for i in range(9)]}}
 
 
 def main(opts) -> int:
